@@ -3,6 +3,8 @@ import json
 import os
 import sys
 
+from . import core
+
 KEYS = ("foo", "_bar", "name")
 
 
@@ -142,7 +144,10 @@ def replay_chunk(lines):
         kws = vec["z"]["act"] == "newlink" and vec["z"]["a2"]
         for plain, link in (("node", "symlink"), ("anynode", "symlinkmixin"), ("anynode", "symlink")):
             out["n"] += 1
-            obs = perform(vec, plain, link)
+            try:
+                obs = core.call_with_deadline(lambda: perform(vec, plain, link))
+            except core.Hang:
+                obs = {"build_failed": True, "built": "the call did not return within the time limit"}
             if obs.get("build_failed"):
                 if len(out["attention"]) < 10:
                     out["attention"].append({"vec": vec, "plain": plain, "link": link, "obs": obs})
